@@ -239,6 +239,19 @@ def check_values(meta: dict, wf_file: str, which: str, values: dict, files_sha) 
             if found is not None and _leaves_match(found, exp, by_id):
                 ok = True
                 break
+            if found is not None and exp and all(k == "r" for k, _ in exp) and len(found) == 1 and found[0][0] == "r":
+                # an array of records is exported as ONE PropertyValue holding the field values of all records in
+                # order (record boundaries are not kept): compare the flattened (field, value) sequences
+                want = [(k, x) for _, r in exp for k, x in r.items() if x is not None]
+                sub = found[0][1].get("value")
+                sub = sub if isinstance(sub, list) else [sub]
+                got = []
+                for s_ in sub:
+                    s_ = by_id.get(s_.get("@id"), s_) if isinstance(s_, dict) else {}
+                    got.append((str(s_.get("name", "")).split("/")[-1], s_.get("value")))
+                if len(got) == len(want) and all(g[0] == w[0] and _scalar_matches(g[1], w[1]) for g, w in zip(got, want)):
+                    ok = True
+                    break
         if not ok and not isinstance(v, list) and len(exp) == 1 and exp[0][0] == "f":
             ok = any("File" in _types(e) and e.get("sha1") == exp[0][1] for e in cands)
         if not ok:
